@@ -5,6 +5,8 @@
             file-system operation (audit events) with the instruction counter at which it happened; or
   kill N  : terminates the process with os._exit(77) -- a hard death, no unwinding, no flushing -- immediately
             BEFORE the N-th such instruction.
+  raise N : raises an exception (a BaseException subclass, like KeyboardInterrupt / MemoryError / a failing write) at the
+            N-th such instruction: the stack unwinds (with-blocks close files, finally-clauses run), then the process ends (78).
 
 Usage: python -m harness.c27_child <kind> <workdir> record|kill [N]
 """
@@ -17,7 +19,11 @@ import sys
 
 def main() -> None:
     kind, workdir, mode = sys.argv[1], sys.argv[2], sys.argv[3]
-    kill_at = int(sys.argv[4]) if mode == "kill" else -1
+    kill_at = int(sys.argv[4]) if mode in ("kill", "raise") else -1
+
+    class Abort(BaseException):
+        pass
+
     os.makedirs(workdir, exist_ok=True)
     os.chdir(workdir)
     os.environ["PASQAL_IO_EMULATORS_VERIF"] = "1"
@@ -74,6 +80,9 @@ def main() -> None:
     def tick(tag: str, line: int, off: int) -> None:
         state["n"] += 1
         if state["n"] == kill_at:
+            if mode == "raise":
+                state["raised"] = True
+                raise Abort("injected exception inside the autosave")
             os._exit(77)
         if log is not None:
             log.write(json.dumps({"n": state["n"], "tag": tag, "line": line, "lasti": off, "save": state["save_calls"], "fs": snapshot(), "open": open_names()}) + "\n")
@@ -144,7 +153,13 @@ def main() -> None:
             log.write(json.dumps({"fsop": "remove", "dst": os.path.basename(str(args[0])), "n": state["n"], "seq": state["seq"], "save": state["save_calls"]}) + "\n")
 
     sys.addaudithook(audit)
-    res = MPSBackend(seq, config=cfg).run()
+    try:
+        res = MPSBackend(seq, config=cfg).run()
+    except BaseException:
+        # whatever the unwinding turned the injected exception into (a finally-clause may raise on its own), the run is over
+        if state.get("raised"):
+            os._exit(78)
+        raise
     mon.set_events(TOOL, 0)
     for c_ in instrumented:
         mon.set_local_events(TOOL, c_, 0)
